@@ -357,6 +357,9 @@ def tuple_unit(plan):
         specs = ["    invariant symbols_brrw.defined@ == old(symbols_brrw).defined@, " + FRESH % "k" + ", " + DIST % "k" + ",",
                  "      invariant symbols_brrw.defined@ == old(symbols_brrw).defined@, k < vars@.len(), id == vars@[k as int].id, forall|a_: int| 0 <= a_ < j ==> #[trigger] vars@[a_].id != id,",
                  "    invariant vars@.len() <= tpl_len, " + FRESH % "vars@.len()" + ", " + DIST % "vars@.len()" + ", " + ADDED + ","]
+    elif len(loops) == 2:     # pre-check against the table only (no check for a name repeated in the pattern), then the inserting loop: the invariants say what is true
+        specs = ["    invariant symbols_brrw.defined@ == old(symbols_brrw).defined@, " + FRESH % "k" + ",",
+                 "    invariant vars@.len() <= tpl_len, " + FRESH % "vars@.len()" + ", " + ADDED + ","]
     elif len(loops) == 1:     # no pre-check at all (the pinned code): the contract cannot hold, the invariant says what is true
         specs = ["    invariant " + ADDED + ","]
     else:
